@@ -287,14 +287,17 @@ def close_written(cols, refcols):
   return out
 
 
-def c10(S0, S1, written_after=(), written_any=(), judge_rest=True, meta_types=None, stats=None):
+def c10(S0, S1, written_after=(), written_any=(), judge_rest=True, meta_types=None, stats=None, reused_targets=()):
   """
   No data Ref / RefList cell refers to a row removed between S0 and S1; a RefList cell equals its old
   list without the removed ids (None when nothing remains).
     written_after: columns that an action *after* the first removing action of the bundle may have
                    written (a later write may legitimately name a row that is gone): not judged at all;
     written_any:   columns written anywhere in the bundle: the comparison with the old list is void;
-    judge_rest:    False when the bundle contains writers whose columns cannot be told.
+    judge_rest:    False when the bundle contains writers whose columns cannot be told;
+    reused_targets: tables to which the bundle also added records: a removed row id may have been given
+                   to a new record, so which ids went away cannot be told from the snapshots and the
+                   comparison with the old list is void for columns pointing at such a table.
   Wrong-typed cells (alt text) and formula columns are ignored. Returns (msgs, cells checked).
   """
   msgs = []
@@ -323,7 +326,9 @@ def c10(S0, S1, written_after=(), written_any=(), judge_rest=True, meta_types=No
     gone = removed[tgt]
     old = None
     i0 = rc0.get((t, c))
-    if judge_rest and (t, c) not in written_any and i0 and i0['type'] == info['type'] and not i0['refires']:
+    if tgt in reused_targets:
+      cnt('skipped.rest_of_list.target_row_ids_may_be_reused')
+    elif judge_rest and (t, c) not in written_any and i0 and i0['type'] == info['type'] and not i0['refires']:
       old = dict(zip(S0[t][0], S0[t][1][c]))
     for r, v in zip(S1[t][0], S1[t][1][c]):
       checked += 1
